@@ -519,15 +519,15 @@ theorem gen_accept_tolLegacy (expf : Rat → Rat) (w w' : W) (thr tol : Rat) (ne
         (by have := hn.small; omega) (by have := ho.small; omega) hO tol]
       cases isimFromSum new.ls new.n <;> cases isimFromSum old.ls old.n <;> rfl
 
-/-- the object `get_merge_accept_fn(name, tol)` returns: class name followed by its attributes -/
-def objOf (expf : Rat → Rat) (m : MergeFn) : List PV :=
+/-- the object `get_merge_accept_fn(name, tol)` returns: class name and its attributes (decay, offset, tolerance) -/
+def objOf (expf : Rat → Rat) (m : MergeFn) : PV :=
   match m.crit with
-  | .radius => [PV.str "RadiusMerge"]
-  | .diameter => [PV.str "DiameterMerge"]
-  | .tolLegacy => [PV.str "ToleranceMerge", PV.flt (some m.tol)]
-  | .tolDiameter => [PV.str "ToleranceDiameterMerge", PV.flt (some decay0), PV.flt (some (tabOf expf).off), PV.flt (some m.tol)]
-  | .tolRadius => [PV.str "ToleranceRadiusMerge", PV.flt (some decay0), PV.flt (some (tabOf expf).off), PV.flt (some m.tol)]
-  | .never => [PV.str "NeverMerge", PV.flt (some decay0), PV.flt (some (tabOf expf).off), PV.flt (some m.tol)]
+  | .radius => PV.obj "RadiusMerge" PV.pynone PV.pynone PV.pynone
+  | .diameter => PV.obj "DiameterMerge" PV.pynone PV.pynone PV.pynone
+  | .tolLegacy => PV.obj "ToleranceMerge" (PV.flt (some m.tol)) PV.pynone PV.pynone
+  | .tolDiameter => PV.obj "ToleranceDiameterMerge" (PV.flt (some decay0)) (PV.flt (some (tabOf expf).off)) (PV.flt (some m.tol))
+  | .tolRadius => PV.obj "ToleranceRadiusMerge" (PV.flt (some decay0)) (PV.flt (some (tabOf expf).off)) (PV.flt (some m.tol))
+  | .never => PV.obj "NeverMerge" (PV.flt (some decay0)) (PV.flt (some (tabOf expf).off)) (PV.flt (some m.tol))
 
 theorem gen_init_tol (expf : Rat → Rat) (tol : Rat) :
     BBGen.ToleranceDiameterMerge_init expf (PV.flt (some tol)) (PV.int 1000)
@@ -542,9 +542,10 @@ theorem gen_dispatch (expf : Rat → Rat) (name : String) (tol : Rat) :
     BBGen.get_merge_accept_fn expf (PV.str name) (PV.flt (some tol)) =
       match getMergeFn name tol with
       | some m => objOf expf m
-      | none => [PV.err "ValueError"] := by
+      | none => PV.err "ValueError" := by
   unfold BBGen.get_merge_accept_fn getMergeFn
-  simp only [eq_str_str, iteL_bool, gen_init_tol, BBGen.ToleranceMerge_init]
+  simp only [eq_str_str, ite_bool, gen_init_tol, BBGen.ToleranceMerge_init, PV.mkObj, List.getD_cons_zero,
+    List.getD_cons_succ, List.getD_nil]
   by_cases h1 : name = "radius"
   · subst h1; rfl
   by_cases h2 : name = "diameter"
